@@ -495,12 +495,15 @@ def run(ctx):
             ctx.violation("threads:data-race:%s" % sig.replace(" ", "@"), "ThreadSanitizer: %s [%s]" % (rep.splitlines()[0], where), {"report": rep[:2000]})
     else:
         ctx.note("no ThreadSanitizer build available")
+    # two WHFast512 simulations (AVX512 build only) stepped alternately: mc/w512.py
+    from .. import w512
+    n_w512 = w512.run(ctx, "C19")
     print("")      # the server's own messages on stdout do not end with a newline
     cov = {
         "evaluations": len(tasks) + len(dry) + nint + nthreadruns + 1,
         "distinct_nontrivial": len(tasks) + nint + len(served),
         "rule": "S: one controlled execution per (configuration, event index, request); T2: interleavings of two simulations; T3: workload runs in concurrent threads",
-        "schedules": len(tasks), "events_per_configuration": totals and sorted(set(totals.values())), "distinct_served_positions": len(served),
+        "whfast512_interleavings": n_w512, "schedules": len(tasks), "events_per_configuration": totals and sorted(set(totals.values())), "distinct_served_positions": len(served),
         "served_positions": sorted("%s->%s:%d" % (a, b, c) for (a, b), c in served.items())[:60],
         "writable_globals_in_library": nglob, "interleavings": nint, "thread_workload_runs": nthreadruns, "tsan_reports_total": races, "exhaustive": True, "samples": [str(tasks[0][:3])],
     }
